@@ -591,7 +591,11 @@ def _edit(rng, structs):
         a = rng.choice(msgs)
         a.update(msg(a["value"] + " now"))
     else:
-        f = rng.choice([f for f in fields if f["name"] == "note"])
+        # a flag is declared at most once per field (in_domain: count <= 1), so url is added only where it is absent
+        cand = [f for f in fields if f["name"] == "note" and not any(i["k"] == "url" for a in f["attrs"] if a["k"] == "validate" for i in a["items"])]
+        if not cand:
+            return _edit(rng, structs)
+        f = rng.choice(cand)
         f["attrs"][0]["items"].append(url())
     return st, kind
 
